@@ -1,36 +1,44 @@
 /* Code-length class split for the level-0 C kernels (igzip_base.c), included by the compression harnesses
- * INSTEAD of linking igzip/igzip_base.c as a unit.  The repo's source text is compiled unchanged
- * (`#include "igzip_base.c"`); only the name `write_bits` is interposed for that translation unit.
+ * INSTEAD of linking igzip/igzip_base.c as a unit.  Must be included directly from the harness .c file.
+ * The repo's source text is compiled unchanged (`#include "igzip_base.c"`); only the calls
+ * `get_lit_code(tables, literal & 0xFF, ...)` made by isal_deflate_body_base / isal_deflate_finish_base for
+ * DATA literals are routed through dfl_get_lit_code() below (which calls the repo's get_lit_code first).
  *
- * Why: the number of bits of every emitted code depends on the (symbolic) data byte through a table
+ * Why: the number of bits of every emitted literal code depends on the (symbolic) data byte through a table
  * lookup.  CBMC's symbolic execution then carries symbolic output pointers, avail_out, state..., and one
- * isal_deflate call does not finish (measured: > 25 min / > 6 GB even for one input byte).  The total bit
- * count of each emitted token is a *size*; like every other size it is made concrete per query and swept by
- * plan.py.  DFL_CLASSES lists, for the k-th write_bits call made by isal_deflate_body_base /
- * isal_deflate_finish_base (in call order), the bit count c_k:
- *      c_k == 0     no constraint (used for end-of-block codes, whose length is concrete anyway)
- *      c_k in 1..63 assume(count == c_k) and continue with the constant
- *      c_k == 255   assert(count is one of DFL_CLASS_SET) and stop the path ("OTHER": for every input with
+ * isal_deflate call does not finish (measured: no verdict after 1059 s / 20 GB for ONE input byte).  The code
+ * length of each literal is a *size*; like every other size it is made concrete per query and swept by
+ * plan.py.  DFL_CLASSES lists, for the k-th data literal (= k-th input byte, literals are emitted in input
+ * order and never twice), the code length c_k:
+ *      c_k == 0     no constraint
+ *      c_k in 1..15 assume(len == c_k) and continue with the constant
+ *      c_k == 255   assert(len is one of DFL_CLASS_SET) and stop the path ("OTHER": for every input with
  *                   the given prefix of classes the k-th code length lies in the swept set, i.e. the case
  *                   split is complete)
  * The assumption restricts the *input bytes* to those whose code has that length; sweeping all vectors
- * over DFL_CLASS_SET at each position plus one OTHER query per prefix covers every input.  A vector whose
- * shape does not match the execution (e.g. constrains an end-of-block write) makes the query vacuous,
- * which the witness twin of the query turns into an error.
+ * over DFL_CLASS_SET plus one OTHER query per prefix covers every input.  End-of-block codes
+ * (`get_lit_code(tables, 256, ...)`) are not touched: their length is a constant of the table.
  *
- * The native replay build compiles the same text with a pass-through write_bits.
+ * Mechanics (preprocessor only, no source change): huffman.h has no include guard, so the definition cannot
+ * be renamed by pre-including it.  A function-like macro get_lit_code() dispatches on __INCLUDE_LEVEL__:
+ * inside huffman.h (level 3) it renames the definition to repo_get_lit_code; inside igzip_base.c (level 2) it
+ * expands a call to dfl_get_lit_code(..., is_eob) where is_eob is derived from the first token of the literal
+ * argument (`256` -> 1, `literal & 0xFF` -> 0 & 0xFF).  Any change of those call sites fails to compile.
+ *
+ * The native replay build compiles the same text with a pass-through dfl_get_lit_code.
  */
 #ifndef DEFLATE_SHIM_H
 #define DEFLATE_SHIM_H
+#if __INCLUDE_LEVEL__ != 1
+#error deflate_shim.h must be included directly from the harness source file
+#endif
 /* speed: the x86 intrinsic headers pulled in by huffman.h/huff_codes.h cost 13 s per goto-cc run and
  * nothing in igzip_base.c uses an intrinsic (a use would fail to compile here) */
 #ifndef REPLAY
 #define _X86INTRIN_H_INCLUDED 1
 #define _IMMINTRIN_H_INCLUDED 1
 #endif
-#define write_bits repo_write_bits
-#include "bitbuf2.h"
-#undef write_bits
+#include "igzip_lib.h"
 
 #ifndef DFL_CLASSES
 #define DFL_CLASSES 0
@@ -40,30 +48,44 @@
 #endif
 static const uint8_t dfl_class[] = { DFL_CLASSES, 0 };
 static const uint8_t dfl_class_set[] = { DFL_CLASS_SET, 0 };
-static unsigned dfl_k; /* ordinal of the write_bits call inside igzip_base.c */
+static unsigned dfl_k; /* ordinal of the data literal */
+
+#define DFL_CAT_(a, b) a##b
+#define DFL_CAT(a, b)  DFL_CAT_(a, b)
+#define get_lit_code(a, b, c, d) DFL_CAT(DFL_GLC_L, __INCLUDE_LEVEL__)(a, b, c, d)
+#define DFL_GLC_L3(a, b, c, d)   repo_get_lit_code(a, b, c, d)
+#define DFL_GLC_L2(a, b, c, d)   dfl_get_lit_code(a, b, c, d, DFL_CAT(DFL_ISEOB_, b))
+#define DFL_ISEOB_256     1
+#define DFL_ISEOB_literal 0
 
 static inline void
-write_bits(struct BitBuf2 *me, uint64_t code, uint32_t count)
+dfl_get_lit_code(struct isal_hufftables *hufftables, uint32_t lit, uint64_t *code, uint64_t *len, int is_eob);
+
+#include "igzip_base.c"
+#undef get_lit_code
+
+static inline void
+dfl_get_lit_code(struct isal_hufftables *hufftables, uint32_t lit, uint64_t *code, uint64_t *len, int is_eob)
 {
+        repo_get_lit_code(hufftables, lit, code, len);
+        if (is_eob)
+                return;
 #ifndef REPLAY
         if (dfl_k < sizeof(dfl_class) - 1) {
                 uint8_t c = dfl_class[dfl_k];
                 if (c == 255) {
                         int in_set = 0;
                         for (unsigned j = 0; j < sizeof(dfl_class_set) - 1; j++)
-                                if (count == dfl_class_set[j])
+                                if (*len == dfl_class_set[j])
                                         in_set = 1;
                         __CPROVER_assert(in_set, "code length class set of the sweep is complete at this position");
                         __CPROVER_assume(0);
                 } else if (c != 0) {
-                        __CPROVER_assume(count == c);
-                        count = c;
+                        __CPROVER_assume(*len == c);
+                        *len = c;
                 }
         }
 #endif
         dfl_k++;
-        repo_write_bits(me, code, count);
 }
-
-#include "igzip_base.c"
 #endif
